@@ -1,4 +1,5 @@
 import RTA.Lemmas.EdfSound
+import RTA.Lemmas.EdfSoundCompliant
 /-! # C02 — the EDF RTAs are safe for every legal schedule
 
 Spec: `RTA/Spec/Sched.lean`; `JlfpLegal s (hepEDF s Dl)`: valid, work conserving, a job in a
@@ -55,5 +56,70 @@ theorem offset_below_busy_window_bound (s : Sys) (Dl : ℕ → ℕ) (i D : ℕ) 
     (j : ℕ) (hj : j < s.n) (t0 : ℕ) (hq : J.Quiet s (hepEDF s Dl) j t0)
     (ht0 : t0 ≤ s.arr j) (hmax : ∀ t, t0 < t → t ≤ s.arr j → ¬ J.Quiet s (hepEDF s Dl) j t) :
     s.arr j - t0 < L := edf_offset_lt_L s Dl i D tua others ids hS L hL hfix j hj t0 hq ht0 hmax
+
+/-! ## Task-set level: hypotheses on the inputs only
+
+`EdfSetting` takes per-task workload bounds and bookkeeping about task ids as hypotheses.
+Here they are DERIVED from the task set: `ts` gives the arrival and cost model of every task,
+`Dl` the relative deadlines and `sg` the maximal non-preemptive segment lengths; `Compliant s ts`
+says that the releases of each task are admissible for its arrival model and that every run of
+`m` consecutive jobs of a task costs at most `cost_of_jobs(m)`.  The analysis is called with
+the request bound of the task and with the records (request bound, deadline, segment) of ALL
+other tasks (`edfOthersOf`).  What remains are hypotheses on the schedule (EDF-legal, arbitrary
+tie-breaking) and on the placement of non-preemptive regions (`Lemmas/EdfSoundCompliant.lean`). -/
+
+theorem fully_preemptive_safe_task_set (s : Sys) (ts : List (Arr × Cost)) (Dl sg : ℕ → ℕ)
+    (i : ℕ) (hi : i < ts.length)
+    (hwf : ∀ p ∈ ts, p.1.WF ∧ p.2.WF) (hex : ∀ x, x < ts.length → (taskRB ts x).Exact)
+    (hc : Compliant s ts) (hl : JlfpLegal s (hepEDF s Dl))
+    (hnp : ∀ l x, ¬ s.np l x) (hpos : ∀ k, k < s.n → 1 ≤ s.cost k)
+    (limit R : ℕ)
+    (hR : edfPreemptive (taskRB ts i) (Dl i) (edfOthersOf ts Dl sg i) limit = .ok R) :
+    ∀ j, j < s.n → s.task j = i → MeetsBound s j R :=
+  edf_preemptive_sound_of_compliant s ts Dl sg i hi hwf hex hc hl hnp hpos limit R hR
+
+theorem floating_nonpreemptive_safe_task_set (s : Sys) (ts : List (Arr × Cost)) (Dl sg : ℕ → ℕ)
+    (i : ℕ) (hi : i < ts.length)
+    (hwf : ∀ p ∈ ts, p.1.WF ∧ p.2.WF) (hex : ∀ x, x < ts.length → (taskRB ts x).Exact)
+    (hc : Compliant s ts) (hl : JlfpLegal s (hepEDF s Dl))
+    (hseg : ∀ l, l < s.n → s.task l ≠ i → ∀ x len,
+      (∀ k, k < len → s.np l (x + k)) → len ≤ sg (s.task l) - 1)
+    (hpos : ∀ k, k < s.n → 1 ≤ s.cost k)
+    (limit R : ℕ)
+    (hR : edfFloating (taskRB ts i) (Dl i) (edfOthersOf ts Dl sg i) limit = .ok R) :
+    ∀ j, j < s.n → s.task j = i → MeetsBound s j R :=
+  edf_floating_sound_of_compliant s ts Dl sg i hi hwf hex hc hl hseg hpos limit R hR
+
+theorem fully_nonpreemptive_safe_task_set (s : Sys) (ts : List (Arr × Cost)) (Dl sg : ℕ → ℕ)
+    (i : ℕ) (hi : i < ts.length) (a : Arr) (C : ℕ) (hts : ts[i] = (a, .scalar C))
+    (hwf : ∀ p ∈ ts, p.1.WF ∧ p.2.WF) (hexa : a.Exact)
+    (hex : ∀ x, x < ts.length → x ≠ i → (taskRB ts x).Exact)
+    (hc : Compliant s ts) (hl : JlfpLegal s (hepEDF s Dl))
+    (hseg : ∀ l, l < s.n → s.task l ≠ i → ∀ x len,
+      (∀ k, k < len → s.np l (x + k)) → len ≤ sg (s.task l) - 1)
+    (hpos : ∀ k, k < s.n → 1 ≤ s.cost k)
+    (hown : ∀ j, j < s.n → s.task j = i → ∀ x, 1 ≤ x → x < s.cost j → s.np j x)
+    (limit R : ℕ)
+    (hR : edfNonpreemptive a C (Dl i) (edfOthersOf ts Dl sg i) limit = .ok R) :
+    ∀ j, j < s.n → s.task j = i → MeetsBound s j R :=
+  edf_nonpreemptive_sound_of_compliant s ts Dl sg i hi a C hts hwf hexa hex hc hl hseg hpos hown
+    limit R hR
+
+theorem limited_preemptive_safe_task_set (s : Sys) (ts : List (Arr × Cost)) (Dl sg : ℕ → ℕ)
+    (i : ℕ) (hi : i < ts.length) (a : Arr) (C last : ℕ) (hts : ts[i] = (a, .scalar C))
+    (hwf : ∀ p ∈ ts, p.1.WF ∧ p.2.WF) (hexa : a.Exact)
+    (hex : ∀ x, x < ts.length → x ≠ i → (taskRB ts x).Exact)
+    (hc : Compliant s ts) (hl : JlfpLegal s (hepEDF s Dl))
+    (hseg : ∀ l, l < s.n → s.task l ≠ i → ∀ x len,
+      (∀ k, k < len → s.np l (x + k)) → len ≤ sg (s.task l) - 1)
+    (hpos : ∀ k, k < s.n → 1 ≤ s.cost k)
+    (hlast1 : 1 ≤ last) (hlastC : last ≤ C)
+    (hown : ∀ j, j < s.n → s.task j = i →
+      ∀ x, max 1 (s.cost j - (last - 1)) ≤ x → x < s.cost j → s.np j x)
+    (limit R : ℕ)
+    (hR : edfLimited a C (Dl i) last (edfOthersOf ts Dl sg i) limit = .ok R) :
+    ∀ j, j < s.n → s.task j = i → MeetsBound s j R :=
+  edf_limited_sound_of_compliant s ts Dl sg i hi a C last hts hwf hexa hex hc hl hseg hpos
+    hlast1 hlastC hown limit R hR
 
 end RTA.C02
